@@ -56,8 +56,33 @@ Theorem version_switch : forall debug a toks path f x,
   args_is_option_set f x S_version = true -> sm_action (run_summary debug a toks) = AVersion path.
 Proof. exact version_switch_lemma. Qed.
 Print Assumptions version_switch.
+(* The version switch as a token (print_version reads the option tokens since fix e9d73cf): wherever it stands among the
+   option tokens, whatever else is on the line - tokens a lenient command cannot parse included - and whichever
+   command the line selects, no handler runs; when the line resolves, the run prints name and version for that command;
+   a version token behind "--" is no switch. *)
+Theorem version_token_never_runs_handler : forall debug a toks, wants_version (option_tokens toks) = true ->
+  match sm_action (run_summary debug a toks) with AHandler _ => False | _ => True end.
+Proof. exact version_token_never_handler. Qed.
+Print Assumptions version_token_never_runs_handler.
+Theorem version_token_prints_version : forall debug a toks path f x,
+  wants_version (option_tokens toks) = true -> wants_help (option_tokens toks) = false ->
+  resolve a toks = Ok (path, f, x) -> sm_action (run_summary debug a toks) = AVersion path.
+Proof. exact version_token_prints. Qed.
+Print Assumptions version_token_prints_version.
+Theorem version_and_help_tokens : forall debug a toks,
+  wants_version (option_tokens toks) = true -> wants_help (option_tokens toks) = true ->
+  match sm_action (run_summary debug a toks) with AVersion _ | AError _ => True | _ => False end.
+Proof. exact version_token_with_help. Qed.
+Print Assumptions version_and_help_tokens.
+Theorem version_token_position_free : forall l l', Permutation l l' -> wants_version l = wants_version l'.
+Proof. exact wants_version_perm. Qed.
+Print Assumptions version_token_position_free.
+Theorem version_token_after_ddash_inert : forall l t t',
+  wants_version (option_tokens (l ++ [DASH; DASH] :: t)) = wants_version (option_tokens (l ++ [DASH; DASH] :: t')).
+Proof. exact wants_version_tail. Qed.
+Print Assumptions version_token_after_ddash_inert.
 Theorem no_switch_runs_handler : forall debug a toks path f x,
-  wants_help (option_tokens toks) = false -> resolve a toks = Ok (path, f, x) ->
+  wants_help (option_tokens toks) = false -> wants_version (option_tokens toks) = false -> resolve a toks = Ok (path, f, x) ->
   args_is_option_set f x S_version = false -> (forall p, path = [p] -> str_eqb p S_help = false) ->
   sm_action (run_summary debug a toks) = AHandler path.
 Proof. exact handler_runs_lemma. Qed.
